@@ -62,14 +62,22 @@ mutual
 partial def wVal : Val → List String
   | .null => ["N"] | .remove => ["R"] | .marker => ["M"] | .na => ["A"]
   | .bool b => [if b then "B1" else "B0"]
-  | .num n => ["n", natHex n.v.bits 16, H n.v.txt, HO n.unit]
+  | .num n =>
+    -- decoded numbers carry the lexeme handed to `str::parse::<f64>` (bits = 2^64): `hsverif canon` evaluates it
+    if n.v.bits = 2 ^ 64 then ["nl", H n.v.txt, HO n.unit]
+    else ["n", natHex n.v.bits 16, H n.v.txt, HO n.unit]
   | .str s => ["s", H s] | .uri s => ["u", H s] | .sym s => ["y", H s]
   | .ref id dis => ["r", H id, HO dis]
   | .xstr ty v => ["x", H ty, H v]
   | .date d => ["d", toString d.y, toString d.m, toString d.d, H d.txt]
   | .time t => ["t", toString t.h, toString t.mi, toString t.s, toString t.ns, H t.txt]
-  | .dateTime t => ["T", toString t.secs, toString t.ns, toString t.off, H t.zone, H t.tzid, H t.txt]
-  | .coord a b => ["c", natHex a.bits 16, H a.txt, natHex b.bits 16, H b.txt]
+  | .dateTime t =>
+    -- a decoded timestamp carries the token text (tzid empty): chrono / chrono-tz evaluate it in `hsverif canon`
+    if t.tzid.isEmpty then ["Tl", H t.txt]
+    else ["T", toString t.secs, toString t.ns, toString t.off, H t.zone, H t.tzid, H t.txt]
+  | .coord a b =>
+    if a.bits = 2 ^ 64 then ["cl", H a.txt, H b.txt]
+    else ["c", natHex a.bits 16, H a.txt, natHex b.bits 16, H b.txt]
   | .list xs => ["[", toString xs.length] ++ (xs.toList.flatMap wVal)
   | .dict d => wTags d
   | .grid md cols rows ver =>
